@@ -142,7 +142,9 @@ def run_replay(binary, args, cases_path, timeout=2400, tier=None):
         log(p.stderr[-3000:])
         raise ToolError(f"harness {binary} failed rc={p.returncode}")
     mism, summary = [], None
-    for line in p.stdout.splitlines():
+    for line in p.stdout.split("\n"):           # not splitlines(): U+0085 / U+2028 inside a reported query are not line ends
+        if not line.strip():
+            continue
         d = json.loads(line)
         if d.get("kind") == "summary":
             summary = d
@@ -210,7 +212,7 @@ def _cls_np_raw_name(m, params):
 def _cls_feedback_raw_path(m, params):
     # D11 seen through C09: the path REPORTED BY A QUERY embeds a member name unescaped, so it cannot be fed back
     loc = m.get("node_loc")
-    if m.get("check") != "refstore" or m.get("op") != "feedback" or not loc:
+    if m.get("check") not in ("refstore", "feedback") or m.get("op") != "feedback" or not loc:
         return False
     if not any(st["k"] == "n" and _needs_escape(_name_of(st)) for st in loc):
         return False
@@ -584,7 +586,7 @@ def validate_trace(ev, module, trace_path, label, timeout=1200):
     p = subprocess.run(cmd, cwd=SPEC, env=e, stdout=subprocess.PIPE, stderr=subprocess.STDOUT, text=True)
     shutil.rmtree(meta, ignore_errors=True)
     mism, summary, generated, distinct = [], None, 0, 0
-    for line in p.stdout.splitlines():
+    for line in p.stdout.split("\n"):
         if line.startswith('<<"MISMATCH", '):
             mism.append(json.loads(json.loads(line[len('<<"MISMATCH", '):-2])))
         elif line.startswith('<<"TRACE-SUMMARY", '):
@@ -722,4 +724,11 @@ def main(argv):
         sys.exit(rc)
     except ToolError as e:
         print(f"TOOL-ERROR {prop}: {e}", file=sys.stderr)
+        sys.exit(2)
+    except SystemExit:
+        raise
+    except BaseException as e:          # a bug of the machinery is a tool error, never a verdict
+        import traceback
+        traceback.print_exc()
+        print(f"TOOL-ERROR {prop}: unexpected {type(e).__name__}: {e}", file=sys.stderr)
         sys.exit(2)
